@@ -123,6 +123,18 @@ def check_c14(prog, rep, tier, cfg):
         kinds = sorted(k[0] if k else "?" for _, k in lines)
         rep.check(kinds == ["CompilerDirective", "ConditionalDirective", "ConditionalDirective", "ConditionalDirective"], R, "directive-lines-created",
                   "parse_file's directive pass creates lines of types %s (expected one CompilerDirective arm and three ConditionalDirective arms)" % kinds, instance={"line_types": kinds})
+        # a directive's line may depend on nothing but its kind: no extra guard on the arms
+        from panic import dominating_conditions
+        for bb, kinds2 in lines:
+            conds = dominating_conditions(pf, bb)
+            extra = []
+            for c in conds:
+                if c[0] == "call" and c[1].split("::")[-1] in ("is_if", "is_end", "is_else") and LANG + "ConditionalDirectiveKind" in c[1]:
+                    continue
+                extra.append(c[1] if c[0] == "call" else "%s(%s,%s)" % (c[1], canon(pf, c[2]), canon(pf, c[3])))
+            rep.check(not extra, R, "directive-line-unconditional:%s:bb%d" % (kinds2[0] if kinds2 else "?", bb),
+                      "the line for a skipped %s token is created only under an additional condition %s — a directive that every pass skipped could end up in no logical line"
+                      % (kinds2[0] if kinds2 else "directive", extra), where="%s:%d" % (pf.file, pf.line), instance={"line_type": kinds2, "extra_conditions": extra})
         guards = sorted(c.callee.split("::")[-1] for c in pf.calls() if (c.callee or "").startswith(LANG + "ConditionalDirectiveKind::"))
         rep.check(guards == ["is_else", "is_end", "is_if"], R, "directive-arms-guards", "parse_file's conditional-directive arms are guarded by %s" % guards, instance={"guards": guards})
         # the filter excludes exactly the attributed directives
